@@ -52,6 +52,9 @@ def instances(tier):
         # history: a complete report, a partial report that changes one entity, the same complete report again
         out.append({"kind": "full_partial_full", "gen": g, "what": "zone"})
         out.append({"kind": "full_partial_full", "gen": g, "what": "ac"})
+        # one frame names the same zone / AC twice (a fixed record, then a free one): the later record is the console's latest word
+        out.append({"kind": "repeated_in_frame", "gen": g, "what": "zone"})
+        out.append({"kind": "repeated_in_frame", "gen": g, "what": "ac"})
         if tier == "thorough":
             out.append({"kind": "ac_status", "gen": g, "frames": 3})
             out.append({"kind": "zone_status", "gen": g, "frames": 3})
@@ -312,6 +315,29 @@ def run(ctx, p):
                 push(con.ac_status_frame(pid=0x53, only=[ac]))
                 inst.ac_status = keep
                 push(list(full))
+                ctx.check(len(rig.net.conns) == n_conn and not rig.task_failures(), "frame_accepted")
+                getter = AC_GETTERS[ctx.choice("getter", len(AC_GETTERS))]
+                _check_ac_getter(ctx, g.n, rig.ac(ac), e, inst.acs[ac], getter)
+        elif kind == "repeated_in_frame":
+            if p["what"] == "zone":
+                zn = ctx.choice("zone", 4)
+                r, e = _sym_zone_record(ctx, g.n, zn, "a")
+                other = (r4.build_group_status(zn, 3, 0, 35, 1, 1, 18, 1, 650, 1) if g.n == 4 else r5.build_zone_status(zn, 3, 0, 35, 80, 1, 650, 1, 1))
+                neighbour = inst.zone_status[(zn + 1) % 4]
+                recs = [list(other), list(neighbour), list(r)]
+                flat = [b for x in recs for b in x]
+                push(con.frame(0x2B, flat, 0x54) if g.n == 4 else con.frame(0xC0, framing.c0(0x21, [], len(recs[0]), len(recs), flat), 0x54))
+                ctx.check(len(rig.net.conns) == n_conn and not rig.task_failures(), "frame_accepted")
+                getter = ZONE_GETTERS[ctx.choice("getter", len(ZONE_GETTERS))]
+                _check_zone_getter(ctx, g.n, rig.zone(zn), e, getter)
+            else:
+                ac = ctx.choice("ac", 2)
+                r, e = _sym_ac_record(ctx, g.n, ac, "a")
+                ctx.assume(e["error_code"] == 0)
+                other = (r4.build_ac_status(ac, 0, 1, 3, 1, 1, 19, 600, 0) if g.n == 4 else r5.build_ac_status(ac, 0, 1, 3, 90, 0, 0, 1, 1, 600, 0))
+                recs = [list(other), list(inst.ac_status[1 - ac]), list(r)]
+                flat = [b for x in recs for b in x]
+                push(con.frame(0x2D, flat, 0x54) if g.n == 4 else con.frame(0xC0, framing.c0(0x23, [], len(recs[0]), len(recs), flat), 0x54))
                 ctx.check(len(rig.net.conns) == n_conn and not rig.task_failures(), "frame_accepted")
                 getter = AC_GETTERS[ctx.choice("getter", len(AC_GETTERS))]
                 _check_ac_getter(ctx, g.n, rig.ac(ac), e, inst.acs[ac], getter)
